@@ -7,6 +7,7 @@ import json, os, subprocess, sys, shutil, tempfile, concurrent.futures, re
 HERE = os.path.dirname(os.path.dirname(os.path.abspath(__file__)))
 ENV = dict(os.environ, GOFLAGS="-mod=mod", GOPROXY="off")
 ENV.pop("GOWORK", None)
+BASE = "/repo"  # main() replaces it by a snapshot taken at start, so that /repo may change during a long run
 
 def run(cmd, cwd=None, env=None):
     p = subprocess.run(cmd, shell=True, cwd=cwd, env=env or ENV, stdout=subprocess.PIPE, stderr=subprocess.STDOUT, text=True)
@@ -15,7 +16,7 @@ def run(cmd, cwd=None, env=None):
 def one(m, with_tests):
     d = tempfile.mkdtemp(prefix="dbft-selftest-")
     try:
-        run("rsync -a --exclude .git /repo/ %s/" % d)
+        run("rsync -a --exclude .git %s/ %s/" % (BASE, d))
         if "patch" in m:
             rc, out = run("patch -p1 --no-backup-if-mismatch < %s" % os.path.join(HERE, m["patch"]), cwd=d)
             if rc != 0:
@@ -97,12 +98,17 @@ def main():
         ms.append(ent)
     if pat:
         ms = [m for m in ms if any(p in m["name"] for p in pat)]
+    global BASE
+    snap = tempfile.mkdtemp(prefix="dbft-selftest-base-")
+    run("rsync -a --exclude .git /repo/ %s/" % snap)
+    BASE = snap
     bad = 0
     with concurrent.futures.ThreadPoolExecutor(max_workers=int(os.environ.get("JOBS","12"))) as ex:
         for name, status, detail in ex.map(lambda m: one(m, with_tests), ms):
             print("%-12s %-40s %s" % (status, name, detail[:300]))
             if status != "ok":
                 bad += 1
+    shutil.rmtree(snap, ignore_errors=True)
     print("selftest: %d mutations, %d not as expected" % (len(ms), bad))
     sys.exit(1 if bad else 0)
 
